@@ -111,6 +111,31 @@ def _events_agree(ctx, case, p, times, amps, duration, runs, sig):
     return True
 
 
+def _redundant_change_points(ctx, lif, case, p, times, amps, duration, base, sig, rng):
+    """the same input *function* written with redundant change points - the zero current before the first change made
+    explicit as (0.0, 0.0), or a change point that repeats the amplitude already in force - gives the same spike times
+    (this is how finding F13 shows without any reference solution)"""
+    variants = []
+    if times[0] > 0.0:
+        variants.append(("explicit-zero-at-0", [0.0] + list(times), [0.0] + list(amps)))
+    j = rng.randrange(len(times))
+    t_mid = times[j] + (((times[j + 1] if j + 1 < len(times) else duration) - times[j]) * rng.uniform(0.2, 0.8))
+    if t_mid > times[j] and (j + 1 >= len(times) or t_mid < times[j + 1]):
+        variants.append(("repeat-amplitude", list(times[:j + 1]) + [t_mid] + list(times[j + 1:]),
+                         list(amps[:j + 1]) + [amps[j]] + list(amps[j + 1:])))
+    for name, t2, a2 in variants:
+        n = lif.ExactLIFNeuron(lif.LIFParams(p.tau, p.r, p.v_leak, p.v_threshold))
+        rec = lif.run_event_based_simulation(n, lif.StepCurrent(t2, a2), 0.013, duration)
+        ctx.count("event_runs_redundant_change_point")
+        if len(rec.spikes) != len(base) or any(not close(x, y, 1e-9) for x, y in zip(rec.spikes, base)):
+            ctx.violate({**case, "variant": name, "times2": t2, "amps2": a2},
+                        "spike times change when the same input is written with a redundant change point",
+                        {**sig, "law": "redundant-change-point", "variant": name},
+                        observed={"n": len(rec.spikes), "first": rec.spikes[:3]}, required={"n": len(base), "first": base[:3]})
+            return False
+    return True
+
+
 def event_loop_correspondence(ctx, lif, rng):
     """Tie B for the event loop: the hand-written Lean model of `run_event_based_simulation` (around the generated
     Float kernels) is run by the driver on the same schedule and must return bit-identical spike times, record
@@ -285,6 +310,14 @@ def run(ctx):
             pool = [rng.uniform(1.0, 4.0), rng.uniform(-1.0, 0.5)] + ([rng.uniform(-4, 4)] if rng.random() < 0.5 else [])
             amps = [pool[j % 2] if rng.random() < 0.7 else rng.choice(pool) for j in range(k)]
         duration = rng.choice([0.05, 0.1, rng.uniform(0.02, 0.12)])
+        spont = rng.random() < 0.2
+        if spont:
+            # a neuron whose leak potential lies above the threshold fires without any input: the stretch before the
+            # first change point (zero current) is part of the dynamics too
+            p.v_threshold = rng.uniform(0.2, 1.5); p.v_leak = p.v_threshold + rng.uniform(0.05, 1.0)
+            if times[0] == 0.0 and rng.random() < 0.8:
+                times[0] = rng.uniform(0.005, 0.03); times.sort()
+            ctx.count("event_runs_leak_above_threshold")
         dts = [0.001, 0.013, 0.03, 0.2, duration / 7]
         case = {"op": "lif_events", "tau": p.tau, "r": p.r, "v_leak": p.v_leak, "v_threshold": p.v_threshold,
                 "times": times, "amps": amps, "duration": duration, "record_dts": dts}
@@ -295,7 +328,7 @@ def run(ctx):
             rec = lif.run_event_based_simulation(n, lif.StepCurrent(list(times), list(amps)), dt, duration)
             runs.append(rec)
         ctx.count("spikes", len(runs[0].spikes))
-        sig = {"site": "run_event_based_simulation"}
+        sig = {"site": "run_event_based_simulation", "leak": "above-threshold" if spont else "below-threshold"}
         late = [r for r in runs if any(t > duration + 1e-12 for t in r.spikes) or any(t > duration + 1e-12 for t in r.times)]
         base = runs[0].spikes
         if late:
@@ -305,6 +338,8 @@ def run(ctx):
             ctx.violate(case, "spike times depend on the recording interval", {**sig, "law": "record-dt"},
                         observed=[r.spikes[-4:] for r in runs])
         elif p.v_threshold > 1e-3 and not _events_agree(ctx, case, p, times, amps, duration, runs, sig):
+            pass
+        elif not _redundant_change_points(ctx, lif, case, p, times, amps, duration, base, sig, rng):
             pass
         else:
             # voltages at coinciding record times (all multiples of 0.039 = 3*0.013 = 1.3*0.03 ...)
